@@ -118,3 +118,17 @@ GENS = {'sat': 'IterateSATGen', 'rnd': 'RandomGen', 'cms': 'CMSGen', 'uni': 'Uni
 
 def gen(name):
     return getattr(sp, GENS[name])
+
+
+def block_design(b):
+    """user-visible factor names of a block spec, in the order the library reports them"""
+    op = b['op']
+    if op in ('cross', 'multi'):
+        return list(b['design'])
+    out = []
+    subs = [b['block']] if op == 'repeat' else (b['blocks'] if op == 'merge' else [b['outer'], b['inner']])
+    for s in subs:
+        for n in block_design(s):
+            if n not in out:
+                out.append(n)
+    return out
